@@ -12,3 +12,5 @@ open EpgVerif.Props.C03
 #print axioms twoVar_value
 #print axioms T_mixed_symm
 #print axioms T_mixed_partial_exact
+#print axioms mixed_step_nl
+#print axioms T_mixed_partial_exact_nl
